@@ -211,6 +211,10 @@ func VerifC19Update() {
 		b.Increment(fs)
 		v, _ := m.get(c)
 		m.set(c, v+1)
+		vCheckBSI(b, m, "post")
+		// the caller's found-set stays the caller's: changing it later must not change the index
+		fs.Add(uint64(vsym.Param("cb"))+3)
+		fs.Remove(c)
 	case 9: // ParOr on disjoint columns
 		o, mo := vGenBSIAt(1, w, 2)
 		_, clash := m.get(mo.ps[0].col)
@@ -221,12 +225,20 @@ func VerifC19Update() {
 		for i := range m.ps {
 			vsym.Assume(m.ps[i].val >= 0)
 		}
-		o, mo := vGenBSIAt(1, w, vsym.Param("sc"))
+		ow := w
+		if w2 := vsym.Param("w2"); w2 > 0 {
+			ow = w2
+		}
+		o, mo := vGenBSIAt(1, ow, vsym.Param("sc"))
 		vsym.Assume(mo.ps[0].val >= 0)
 		oc := mo.ps[0].col
 		cur, ex := m.get(oc)
 		b.Add(o)
 		m.set(oc, vsym.IteI64(ex, cur, 0)+mo.ps[0].val)
+		vCheckBSI(b, m, "post")
+		// value semantics: the argument index can be changed afterwards without affecting the sum
+		o.SetValue(oc, 0)
+		o.SetValue(oc+1, 1)
 	}
 	vCheckBSI(b, m, "post")
 	vsym.Reach("end")
